@@ -73,11 +73,12 @@ def triage(prog, rep, tag):
         # the invalid-response condition: mailbox_type != Coe || !validate_response
         vr = [c for c in b.calls() if (c.decl_s or "").endswith("validate_response")]
         d["validate-called"] = len(vr) == 1 and has_root(pr.of_operand(vr[0].args[1]), "field", "HeadersRaw", "address") and has_root(pr.of_operand(vr[0].args[2]), "field", "HeadersRaw", "sub_index")
-        if vr:
-            for cd in q.conds(b):
-                if cd.kind == "call" and cd.call is vr[0] or (cd.kind == "call" and cd.call is not None and cd.call.bb == vr[0].bb):
-                    t = cd.true_target()
-                    d["ok-only-if-validated"] = all(x[0] in q.edge_dominated(b, cd.bb, t) for x in final_ok)
+        if vr and vr[0].target is not None and not vr[0].dest["p"]:
+            # whatever carries the verdict (a branch on the call, `a || !b`, a named bool): once validate_response
+            # returned false the success value cannot be reached any more, and it can after true
+            no = q.BoolFlow(b, vr[0].target, 0, {vr[0].dest["l"]: 0})
+            yes = q.BoolFlow(b, vr[0].target, 0, {vr[0].dest["l"]: 1})
+            d["ok-only-if-validated"] = bool(final_ok) and not any(x[0] in no.in_state for x in final_ok) and any(x[0] in yes.in_state for x in final_ok)
         d.setdefault("ok-only-if-validated", False)
         # abort details
         s = a_aggs[0][2]
